@@ -60,6 +60,9 @@ def run(ctx) -> None:
             ctx.check(bool(outs) and not raw, "C01.H.operand-fields-comma-free", "OperandsParser._process_operand_elem",
                       f"class[{cls}] -> {outs or raises}"[:220],
                       f"an operand with ',' inside parentheses [{cls}] reaches the stream built from comma-split pieces only")
+    # H: every operand form objdump prints reaches the stream in its normal form (token templates; incl. the 16-bit forms)
+    from .. import shapes as _sh
+    _sh.normal_form_rule(ctx, make_interp(ctx.p), "C01.H.operand-normal-forms", listed_only=False)
     # R8: the listing the verdict is about is the file's text as Python's text mode reads it
     from ._matchrules import assembly_text_unmodified
     assembly_text_unmodified(ctx, "C01.R8.listing-text-unmodified")
